@@ -53,48 +53,122 @@ def _genby(case):
     return case['genby']
 
 
+FIXTURES = ['biom/tests/test_data/test.biom', 'biom/tests/test_cli/test_data/test.biom', 'biom/tests/test_data/empty.biom',
+            'biom/tests/test_data/test_grp_metadata.biom', 'biom/tests/test_data/edgecase_issue_952.biom',
+            'examples/min_sparse_otu_table_hdf5.biom', 'examples/rich_sparse_otu_table_hdf5.biom',
+            'examples/rich_sparse_otu_table_hdf5_group_metadata.biom']
+_LATER = {}       # case hash -> model input for the table that was loaded and is written again
+_SRC = {}         # fixture cases: what the library's reader made of the shipped file
+
+
+def _plain_spec(t):
+    """spec (python values) of a real table, for the domain predicate and the oracle"""
+    sp = U.spec_of_table(t)
+    for ax in ('omd', 'smd'):
+        if sp[ax] is not None:
+            sp[ax] = [{k: tables.plain(v) for k, v in m.items()} for m in sp[ax]]
+    d = t.matrix_data.copy()
+    import numpy as np
+    sp['mat'] = np.asarray(d.todense(), dtype=float).reshape(d.shape).tolist()
+    sp['ogmd'] = None if not sp['ogmd'] else {k: ['', v] if isinstance(v, str) else list(v) for k, v in sp['ogmd'].items()}
+    sp['sgmd'] = None if not sp['sgmd'] else {k: ['', v] if isinstance(v, str) else list(v) for k, v in sp['sgmd'].items()}
+    return sp
+
+
+def _source(case):
+    """the table whose file is under test, as a spec"""
+    if case.get('kind') == 'fixture':
+        if jhash(case) not in _SRC:
+            run_impl(case)
+        return _SRC[jhash(case)]
+    return case['spec']
+
+
 def _in_domain(case):
-    return U.in_domain(case) and (case['spec'].get('type') is None or case['spec']['type'] in U.VOCAB)
+    sp = _source(case)
+    return U.in_domain(dict(case, spec=sp)) and (sp.get('type') is None or sp['type'] in U.VOCAB)
+
+
+def _decoded(path, mask_date=False):
+    tree, comp = U.raw_tree(path, mask_date=mask_date)
+    try:
+        rep = spec_decoder.decode(path)
+    except Exception as e:      # the decoder must not hide a malformed file behind its own crash
+        rep = {'problems': ['spec decoder could not read the file: %s: %s' % (type(e).__name__, str(e)[:120])],
+               'csr': None, 'csc': None, 'shape': None, 'nnz': None, 'ids': {}, 'md_entries': {}}
+    return {'write': 'ok', 'file': tree,
+            'spec': {'problems': rep['problems'], 'csr': rep['csr'], 'csc': rep['csc']},
+            'seen': {'shape': rep['shape'], 'nnz': rep['nnz'], 'ids': rep['ids'], 'md_entries': rep['md_entries']}}
 
 
 def run_impl(case):
+    import biom
+    import h5py
+    import numpy as np
+    fixture = case.get('kind') == 'fixture'
     try:
-        t, st = _build(case)
+        if fixture:
+            from .core import REPO
+            t = biom.load_table(os.path.join(REPO, case['file']))
+            _STATE[jhash(case)] = U.enc_table_state(t)
+            _SRC[jhash(case)] = _plain_spec(t)
+        else:
+            t, st = _build(case)
     except Exception as e:
         return {'build': ['err', tables.err_code(e), type(e).__name__, str(e)[:200]]}
     path = U.tmpfile()
+    path2 = U.tmpfile()
     try:
         try:
             U.write_table(t, case, path)
         except Exception as e:
             return {'write': ['err', tables.err_code(e)]}
-        tree, comp = U.raw_tree(path, mask_date=case.get('writer') == 'convert')
-        try:
-            rep = spec_decoder.decode(path)
-        except Exception as e:      # the decoder must not hide a malformed file behind its own crash
-            rep = {'problems': ['spec decoder could not read the file: %s: %s' % (type(e).__name__, str(e)[:120])],
-                   'csr': None, 'csc': None, 'shape': None, 'nnz': None, 'ids': {}, 'md_entries': {}}
-        return {'write': 'ok', 'file': tree, 'in_domain': _in_domain(case),
-                'spec': {'problems': rep['problems'], 'csr': rep['csr'], 'csc': rep['csc']},
-                'seen': {'shape': rep['shape'], 'nnz': rep['nnz'], 'ids': rep['ids'], 'md_entries': rep['md_entries']}}
+        out = _decoded(path, mask_date=case.get('writer') == 'convert')
+        out['in_domain'] = _in_domain(case)
+        if case.get('history'):
+            # history: the file is loaded (optionally after being stamped as a BIOM 2.0 file, whose group layout
+            # is the same) and the loaded table is written again
+            try:
+                if case['history'] == 'reload20':
+                    with h5py.File(path, 'r+') as f:
+                        f.attrs['format-version'] = np.array([2, 0])
+                t1 = biom.load_table(path)
+                _LATER[jhash(case)] = U.enc_table_state(t1)
+                U.write_table(t1, case, path2)
+                out['later'] = _decoded(path2)
+            except Exception as e:
+                _LATER.setdefault(jhash(case), None)
+                out['later'] = {'write': ['err', tables.err_code(e), type(e).__name__]}
+        return out
     finally:
-        if os.path.exists(path):
-            os.remove(path)
+        for p in (path, path2):
+            if os.path.exists(p):
+                os.remove(p)
 
 
 def encode(case):
     date = '<now>' if case.get('writer') == 'convert' else case['date']
-    return [U.enc_state(case, _state(case)), U.cps(_genby(case)), U.cps(date)]
+    k = jhash(case)
+    if case.get('kind') == 'fixture':
+        if k not in _STATE:
+            run_impl(case)
+        tree = [_STATE[k], U.cps(_genby(case)), U.cps(date)]
+    else:
+        tree = [U.enc_state(case, _state(case)), U.cps(_genby(case)), U.cps(date)]
+    if case.get('history'):
+        if k not in _LATER:
+            run_impl(case)
+        if _LATER.get(k) is not None:
+            tree.append([_LATER[k]])
+    return tree
 
 
-def decode(tree, case):
-    w = tree[0]
+def _dec_part(w, csr_t, csc_t):
     if w[0] == -1:
         return {'write': ['err', w[1]]}
     f = U.dec_h5(w[1])
     mat = lambda o: None if not o else [[U.unbig(v) for v in row] for row in o[0]]
-    csr, csc = mat(tree[1]), mat(tree[2])
-    s = case['spec']
+    csr, csc = mat(csr_t), mat(csc_t)
     # 'seen' restates the written tree in the decoder's terms (shape, nnz, ids, entries per category)
     def ids(ax):
         d = f['dsets'].get('%s/ids' % ax)
@@ -102,7 +176,7 @@ def decode(tree, case):
     def ents(ax):
         pre = '%s/metadata/' % ax
         return {k[len(pre):]: v['shape'] for k, v in f['dsets'].items() if k.startswith(pre)}
-    return {'write': 'ok', 'file': f, 'in_domain': bool(tree[3]),
+    return {'write': 'ok', 'file': f,
             'spec': {'problems': [] if csr is not None and csc is not None else ['model: the Coq spec decoder refuses the file'],
                      'csr': csr, 'csc': csc},
             'seen': {'shape': f['attrs']['shape'][1], 'nnz': f['attrs']['nnz'][1],
@@ -110,38 +184,60 @@ def decode(tree, case):
                      'md_entries': {'observation': ents('observation'), 'sample': ents('sample')}}}
 
 
+def decode(tree, case):
+    out = _dec_part(tree[0], tree[1], tree[2])
+    if out.get('write') != 'ok':
+        return out
+    out['in_domain'] = bool(tree[3])
+    if case.get('history') and len(tree) > 4 and tree[4]:
+        out['later'] = _dec_part(*tree[4][0])
+    return out
+
+
 # ---------------------------------------------------------------- oracle: the property text
+def _check(s, part, label=''):
+    n, m = len(s['oids']), len(s['sids'])
+    fails = [label + 'not BIOM 2.1: ' + p for p in part['spec']['problems']]
+    seen = part['seen']
+    if seen['shape'] != [n, m]:
+        fails.append(label + 'shape attribute %s, the table is %d x %d' % (seen['shape'], n, m))
+    true_nnz = sum(1 for row in s['mat'] for v in row if v != 0)
+    if seen['nnz'] != true_nnz:
+        fails.append(label + 'nnz attribute %s, the table has %d non-zero cells' % (seen['nnz'], true_nnz))
+    want = [[U.fbits(v) for v in row] for row in s['mat']] if m else [[] for _ in range(n)]
+    for k, lab in (('csr', 'observation (compressed row)'), ('csc', 'sample (compressed column)')):
+        got = part['spec'][k]
+        if got is not None and m == 0:
+            got = [[] for _ in got]
+        if got != want:
+            fails.append(label + 'the %s copy decodes to %s, the table matrix is %s' % (lab, str(got)[:120], str(want)[:120]))
+    for ax, ids, md in (('observation', s['oids'], s.get('omd')), ('sample', s['sids'], s.get('smd'))):
+        if seen['ids'].get(ax) != list(ids):
+            fails.append(label + '%s/ids holds %s, the axis ids are %s' % (ax, seen['ids'].get(ax), ids))
+        cats = set(md[0]) if md and any(md) else set()
+        got = seen['md_entries'].get(ax) or {}
+        if {c.replace('@@SLASH@@', '/') for c in got} != cats:
+            fails.append(label + '%s/metadata has datasets %s for categories %s' % (ax, sorted(got), sorted(cats)))
+        for c, shape in got.items():
+            if not shape or shape[0] != len(ids):
+                fails.append(label + '%s/metadata/%s has shape %s for %d ids' % (ax, c, shape, len(ids)))
+    return fails
+
+
 def oracle(case, obs):
     if 'build' in obs:
         return ['could not build the source table: %s' % (obs['build'],)]
     if obs.get('write') != 'ok':
         return ['writing a table of the property domain failed: %s' % (obs.get('write'),)]
-    s = case['spec']
-    n, m = len(s['oids']), len(s['sids'])
-    fails = ['not BIOM 2.1: ' + p for p in obs['spec']['problems']]
-    seen = obs['seen']
-    if seen['shape'] != [n, m]:
-        fails.append('shape attribute %s, the table is %d x %d' % (seen['shape'], n, m))
-    true_nnz = sum(1 for row in s['mat'] for v in row if v != 0)
-    if seen['nnz'] != true_nnz:
-        fails.append('nnz attribute %s, the table has %d non-zero cells' % (seen['nnz'], true_nnz))
-    want = [[U.fbits(v) for v in row] for row in s['mat']] if m else [[] for _ in range(n)]
-    for k, label in (('csr', 'observation (compressed row)'), ('csc', 'sample (compressed column)')):
-        got = obs['spec'][k]
-        if got is not None and m == 0:
-            got = [[] for _ in got]
-        if got != want:
-            fails.append('the %s copy decodes to %s, the table matrix is %s' % (label, str(got)[:120], str(want)[:120]))
-    for ax, ids, md in (('observation', s['oids'], s.get('omd')), ('sample', s['sids'], s.get('smd'))):
-        if seen['ids'].get(ax) != list(ids):
-            fails.append('%s/ids holds %s, the axis ids are %s' % (ax, seen['ids'].get(ax), ids))
-        cats = set(md[0]) if md and any(md) else set()
-        got = seen['md_entries'].get(ax) or {}
-        if {c.replace('@@SLASH@@', '/') for c in got} != cats:
-            fails.append('%s/metadata has datasets %s for categories %s' % (ax, sorted(got), sorted(cats)))
-        for c, shape in got.items():
-            if not shape or shape[0] != len(ids):
-                fails.append('%s/metadata/%s has shape %s for %d ids' % (ax, c, shape, len(ids)))
+    s = _source(case)
+    fails = _check(s, obs)
+    if case.get('history'):
+        later = obs.get('later') or {}
+        lab = 'file written from the table loaded back%s: ' % (' from a BIOM 2.0 file' if case['history'] == 'reload20' else '')
+        if later.get('write') != 'ok':
+            fails.append(lab + 'writing failed: %s' % (later.get('write'),))
+        else:
+            fails += _check(s, later, lab)
     return fails[:4]
 
 
@@ -150,16 +246,25 @@ def gen(rng, tier):
     quick = tier == 'quick'
     k = 1 if quick else 10
     md = 6 if quick else 12
+    def hist(c):
+        c.pop('gen2', None)
+        if rng.random() < 0.35:
+            c['history'] = rng.choice(['reload', 'reload20', 'reload20'])
+        return c
+    for f in FIXTURES:      # shipped files (BIOM 2.0 and 2.1): load, write, decode
+        yield {'kind': 'fixture', 'file': f, 'genby': 'fixture', 'date': '2014-07-29T16:16:36.617320', 'compress': bool(rng.getrandbits(1)),
+               'writer': rng.choice(['to_hdf5', 'save_table'])}
     for i in range(200 * k):
-        yield U.rand_case(rng, md)
+        yield hist(U.rand_case(rng, md))
     for i in range(60 * k):
-        yield U.rand_case(rng, md, empty_axis=True)
+        yield hist(U.rand_case(rng, md, empty_axis=True))
     for i in range(40 * k):
-        yield U.rand_case(rng, md, all_zero=True)
+        yield hist(U.rand_case(rng, md, all_zero=True))
     for i in range(60 * k):
         c = U.rand_case(rng, md, writer='convert', empty_axis=rng.random() < 0.1)
         c['spec']['type'] = rng.choice(U.VOCAB)     # --table-type; see docs/C04.md for the default
         c['compress'] = True                        # write_biom_table uses the default
+        c.pop('gen2', None)
         yield c
 
 
@@ -168,10 +273,19 @@ def nontrivial(case):
 
 
 def classify(case):
-    return U.classify_case(case) + [U.layout_tag(_state(case)), 'theorem-domain:%s' % ('inside' if _in_domain(case) else 'outside')]
+    if case.get('kind') == 'fixture':
+        return ['kind:fixture', 'theorem-domain:%s' % ('inside' if _in_domain(case) else 'outside')]
+    return U.classify_case(case) + [U.layout_tag(_state(case)), 'theorem-domain:%s' % ('inside' if _in_domain(case) else 'outside'),
+                                    'history:%s' % (case.get('history') or 'write')]
 
 
 def shrink(case):
+    if case.get('kind') == 'fixture':
+        return
+    if case.get('history'):
+        yield {k: v for k, v in case.items() if k != 'history'}
+        if case['history'] == 'reload20':
+            yield dict(case, history='reload')
     from . import c01
     for c in c01.shrink(case):
         yield c
